@@ -210,6 +210,14 @@ def scenario(sim, vec, repeat=True):
             sim.data.synthetic.data.flat)
         out['gradient (after repeated compute)'] = list(np.asarray(
             sim.gradient, dtype=object).flat)
+        # in-place update of the model on the same objects, then again
+        newv = sym_array('upd', (sim.model.shape[1], sim.model.shape[2]),
+                         positive=True)
+        sim.model.property_x[0, :, :] = newv
+        sim.clean('computed')
+        sim.compute()
+        out['synthetic (after an in-place model update)'] = list(
+            sim.data.synthetic.data.flat)
     return out
 
 
@@ -269,7 +277,8 @@ def case_mode(case):
             teardown(E, X)
         if c.stats['forks']:
             return [ob("harness: reference run forked", 'error', group=grp)]
-        ref_calls = len(W.calls)
+        ref_calls = sorted((cc['key'], cc['tol'], cc['guess'] is None,
+                            cc['guess'] or 0) for cc in W.calls)
 
         # ---- all schedules / worker counts ------------------------------
         mp.tqdm = tq_model if use_tqdm else None
@@ -283,6 +292,7 @@ def case_mode(case):
             del cfmodel.LOG[:]
             fs = FS()
             fsaved = install_fs(E, fs) if use_files else []
+            ncall0 = len(W.calls)
             X = build(E, c, W, nsrc, nfreq, mw, tmp if use_files else None,
                       gridding)
             try:
@@ -293,6 +303,9 @@ def case_mode(case):
                     setattr(m_, n_, v_)
                 cfmodel.SCHED[0] = None
             pools = sum(1 for e in cfmodel.LOG if e[0] == 'pool')
+            got['__solver_inputs__'] = sorted(
+                (cc['key'], cc['tol'], cc['guess'] is None, cc['guess'] or 0)
+                for cc in W.calls[ncall0:])
             return got, sched.orders, pools, len(fs.log)
 
         npaths = 0
@@ -300,7 +313,11 @@ def case_mode(case):
                 run, budget_s=2400):
             npaths += 1
             t1 = time.time()
+            calls_got = got.pop('__solver_inputs__')
             d = differs(c, got, want)
+            if d is None and calls_got != ref_calls:
+                d = ("solver inputs (model, source field, tolerance, "
+                     "initial guess)")
             par = pools > 0
             branches.add(par)
             if study == 'all':
@@ -445,6 +462,15 @@ def replay(cex):
             sim.compute()
             out['synthetic (repeated compute)'] = \
                 sim.data.synthetic.data.copy()
+            for s_, f_ in itertools.product(survey.sources,
+                                            survey.frequencies):
+                out[f'efield (repeated compute) {s_} {f_}'] = \
+                    sim.get_efield(s_, f_).field.copy()
+            sim.model.property_x[0, :, :] = 1.2345
+            sim.clean('computed')
+            sim.compute()
+            out['synthetic (after an in-place model update)'] = \
+                sim.data.synthetic.data.copy()
         finally:
             _mp.tqdm = old
             _mp.solve = old_solve
@@ -463,9 +489,13 @@ def replay(cex):
                 continue
             for k in want:
                 a, b = got[k], want[k]
-                if a.shape != b.shape or not np.allclose(
-                        a, b, rtol=1e-6, atol=1e-9*np.abs(b).max(),
-                        equal_nan=True):
+                exact = str(cex.get('what', '')).startswith(
+                    'solver inputs') and 'efield' in k
+                if a.shape != b.shape or (
+                        not np.array_equal(a, b, equal_nan=True) if exact
+                        else not np.allclose(
+                            a, b, rtol=1e-6, atol=1e-9*np.abs(b).max(),
+                            equal_nan=True)):
                     msgs.append(f"max_workers={mw}: {k} differs from the "
                                 f"sequential in-memory run")
                     break
